@@ -1,5 +1,6 @@
 """Whole-crate call graph over MIR, including trait dispatch and `fmt` argument edges."""
 from collections import defaultdict
+from .facts import targs
 
 
 def peel(tyj):
@@ -103,9 +104,9 @@ class CallGraph:
 
     def _callee_edges(self, fn, c, line, src):
         path = c["path"]
-        if path in FMT_ARG and c["args"]:
+        if path in FMT_ARG and targs(c):
             tr = FMT_ARG[path]
-            head = ty_head(c["args"][0])
+            head = ty_head(targs(c)[0])
             hit = False
             for h, mp in self.impl_methods.get((tr, "fmt"), []):
                 if h == head:
